@@ -63,14 +63,14 @@ class EscTerminal(simbus.SimTerminal):
         return [(0x10, 2)] + [(a, 2) for a in WD_REGS] + \
             ([(FMMU_BASE, 16 * nf)] if nf else []) + [(SM_BASE, SM_END - SM_BASE)]
 
-    def nonzero(self):
-        """sparse dump of the tracked registers: [[address, byte], ...] for non-zero bytes"""
-        out = []
-        for start, n in self.tracked():
-            for a in range(start, start + n):
-                if self.mem[a]:
-                    out.append([a, self.mem[a]])
-        return out
+    def regs(self):
+        """dump of the tracked registers as spec/EscInitTrace.tla (EscOf) reads it"""
+        import struct
+        nf = self.mem[4]
+        return dict(station=self.station,
+                    wd=[struct.unpack_from("<H", self.mem, a)[0] for a in WD_REGS],
+                    fmmu=[list(self.mem[FMMU_BASE + 16 * i:FMMU_BASE + 16 * i + 16]) for i in range(nf)],
+                    sm=[list(self.mem[SM_BASE + 8 * n:SM_BASE + 8 * n + 8]) for n in range(16)])
 
     def baseline(self):
         return bytes(self.mem)
